@@ -71,7 +71,10 @@ def pel_specs():
     specs['co_ok'] = {'creator': 'B', 'eid': 0x50000008, 'sections': [_src(0, [_proc('OKPROC1'), _proc('OKPROC2')], 'B7001111')]}
     specs['co_raise'] = {'creator': 'B', 'eid': 0x50000009, 'sections': [_src(0, [_proc('RAISE01'), _proc('OKPROC3')], 'B7002222')]}
     specs['co_none'] = {'creator': 'B', 'eid': 0x5000000A, 'sections': [_src(0, [_proc('NONE001'), _proc('OKPROC4')], 'B7003333')]}
-    specs['src_ok'] = {'creator': 'B', 'eid': 0x5000000B, 'sections': [_src(0)]}
+    mru1 = {'prio': 0x48, 'loc': 'U1', 'fru': {'flags': 0x18, 'pn': 'PN-MRU1'}, 'mru': {'ids': [[0x48, 0x11110001], [0x4C, 0x11110002]]}}
+    mru2 = {'prio': 0x4D, 'loc': '', 'fru': {'flags': 0x18, 'pn': 'PN-MRU2'}, 'mru': {'ids': [[0x48, 0x22220001]]},
+            'pce': {'mtm': '9105-22A', 'sn': 'PCE2', 'name': 'pce2'}}
+    specs['src_ok'] = {'creator': 'B', 'eid': 0x5000000B, 'sections': [_src(0, [mru1])]}
     specs['src_raise'] = {'creator': 'B', 'eid': 0x5000000C, 'sections': [_src(1), dict(_src(0), t='SS')]}
     specs['src_importerror'] = {'creator': 'B', 'eid': 0x5000000D, 'sections': [_src(2)]}
     specs['lp2'] = {'creator': 'H', 'eid': 0x5000000E, 'sections': [{'t': 'LP', 'name': 'lparname', 'targets': [0x0A0B, 0x0C0D]},
@@ -85,7 +88,8 @@ def pel_specs():
         {'t': 'UD', 'comp': 0x2C00, 'sub': 72, 'ver': 9, 'payload': '0102'}]}
     # pairs that share one component of a parser-cache key but differ in another (creator vs component vs code type)
     specs['o_bc_e5'] = {'creator': 'O', 'eid': 0x50000011, 'sections': [{'t': 'PS', 'ascii': 'BC8AE510'.ljust(32)}]}
-    specs['o_bd_2a'] = {'creator': 'O', 'eid': 0x50000012, 'sections': [{'t': 'PS', 'ascii': 'BD2A1234'.ljust(32)}]}
+    specs['o_bd_2a'] = {'creator': 'O', 'eid': 0x50000012, 'sections': [{'t': 'PS', 'ascii': 'BD2A1234'.ljust(32), 'callouts': [mru2]},
+                                                                 {'t': 'EH'}, {'t': 'MT'}, {'t': 'UD', 'comp': 0x2000, 'sub': 3, 'payload': b'text\nlines'.hex()}]}
     specs['o_bc_2a'] = {'creator': 'O', 'eid': 0x50000013, 'sections': [{'t': 'PS', 'ascii': 'BC2A1234'.ljust(32)}]}
     specs['o_ud_2c00'] = {'creator': 'O', 'eid': 0x50000014, 'sections': [
         {'t': 'UD', 'comp': 0x2C00, 'sub': 72, 'ver': 1, 'payload': '0102030405'},
